@@ -66,11 +66,11 @@ the subset can only make a theorem fail):
 * `<!d…`, `<!D…`, `<![…` (DOCTYPE, CDATA), `<?`;
 * inside script data: `<!` (the escaped / double-escaped states are approximated by `none`);
 * an appropriate end tag followed by whitespace or `/` inside RCDATA/RAWTEXT/script;
-* a line feed directly after `<textarea>` (dropped by the tree builder);
 * elements outside the table `kind` (tables, select, template, svg/math, iframe, pre, li, …) and
   start tags the tree builder would not simply insert: a `p`-closing tag while a `p` is open,
   `a` inside `a`, `button` inside `button`, a heading directly inside a heading.
-On everything else `parse` follows the standard: adjacent character tokens merge into one text node,
+On everything else `parse` follows the standard (a line feed directly after `<textarea>` is dropped by
+the tree builder): adjacent character tokens merge into one text node,
 comments are kept as nodes, attribute and tag names are lower-cased.
 -/
 namespace Leptos.Html
@@ -196,12 +196,36 @@ def textHtml (escape : Bool) (pos : Pos) (s : Str) : Str :=
   (if pos = .afterText then ['<', '!', '>'] else []) ++
   (if escape then (if s = [] then [' '] else escapeText s) else s)
 
+/-- have the children of `<textarea>` (RCDATA) been rendered as escaped text?  `false`: the code as it
+is (`ESCAPE_CHILDREN = false`: pushed raw, F-C06-1); `true`: after hooks/fix-c06-3.patch
+(`HtmlElement::to_html_with_buf` renders them without markers and passes the result through
+`encode_text`).  Flip when the fix is applied. -/
+def textareaEscaped : Bool := false
+
+/-- is a line feed at the start of the textarea text doubled (the parser drops the first one)?
+`true` after hooks/fix-c06-4.patch (which builds on fix-c06-3).  Flip when the fix is applied. -/
+def textareaLfGuard : Bool := false
+
+def cLf' : Char := Char.ofNat 10
+
+/-- the text between `<textarea>` and `</textarea>`, given what the children print without escaping -/
+def textareaBody (escaped guard : Bool) (inner : Str) : Str :=
+  if escaped then
+    (if guard && inner.head? = some cLf' then [cLf'] else []) ++ escapeText inner
+  else inner
+
+/-- children part of an element: `<textarea>` goes through `textareaBody` -/
+def elemBody (tag : Str) (raw : Str) : Str :=
+  if tag = tTextarea then textareaBody textareaEscaped textareaLfGuard raw else raw
+
 def posAfter : Node → Pos
   | .text _ => .afterText
   | .elem .. => .nextChild
 
 mutual
-/-- `to_html_with_buf` of a text view / an `HtmlElement` -/
+/-- `to_html_with_buf` of a text view / an `HtmlElement`.  (Basic embedding, shared with C05/C18: the
+children of `<textarea>` are printed as they are — the code before hooks/fix-c06-3.patch; the extended
+embedding `VNode` / `vHtml` follows the repair through `elemBody`.) -/
 def nodeHtml (escape : Bool) (pos : Pos) : Node → Str
   | .text s => textHtml escape pos s
   | .elem tag attrs kids =>
@@ -656,7 +680,7 @@ def step (σ : PState) (c : Char) : Option PState :=
   let st := σ.stack
   match σ.tok with
   | .text => stepText st c
-  | .textSkipLf => if c = cLf then none else stepText st c
+  | .textSkipLf => if c = cLf then some ⟨.text, st⟩ else stepText st c   -- "ignore that token"
   | .cref r =>
     match crefStep r c with
     | .more r' => some ⟨.cref r', st⟩
@@ -852,7 +876,8 @@ def attrValClean : Attr → Bool
   | _ => true
 
 mutual
-/-- class `raw-text-child` (negated): no element with `ESCAPE_CHILDREN = false` has a string child -/
+/-- class `raw-text-child` (negated) for the basic embedding: no element with `ESCAPE_CHILDREN = false`
+has a string child (the extended embedding `VNode` admits the single string of a repaired `<textarea>`) -/
 def rawTextFree : Node → Bool
   | .text _ => true
   | .elem tag _ kids => (escapeChildren tag || !kids.any isTextNode) && rawTextFreeKids kids
@@ -967,7 +992,8 @@ def vHtml (escape : Bool) (pos : Pos) : VNode → Str
   | .elem tag attrs kids =>
     '<' :: tag ++ attrsHtml attrs ++ '>' ::
       (if isVoid tag then []
-       else (if innerBuf attrs = [] then vKidsHtml (escapeChildren tag) .firstChild kids else innerBuf attrs)
+       else (if innerBuf attrs = [] then elemBody tag (vKidsHtml (escapeChildren tag) .firstChild kids)
+             else innerBuf attrs)
             ++ '<' :: '/' :: tag ++ ['>'])
   | .seq ks => vKidsHtml escape pos ks
   | .vec ks => vKidsHtml escape pos ks ++ markerIf escape
@@ -1049,10 +1075,17 @@ def Node.toVs : List Node → List VNode
   | n :: ns => Node.toV n :: Node.toVs ns
 end
 
+/-- with both textarea repairs in place, `<textarea>` with exactly one string child is as good as an
+escaping element (more strings would be joined by a literal `<!>`: class `rcdata-marker`) -/
+def vTextareaOneText (tag : Str) : List VNode → Bool
+  | [.text _] => tag = tTextarea && textareaEscaped && textareaLfGuard
+  | _ => false
+
 mutual
 /-- class `raw-text-child` (negated) -/
 def vRawTextFree : VNode → Bool
-  | .elem tag _ kids => (escapeChildren tag || !vHasTextKids kids) && vRawTextFreeKids kids
+  | .elem tag _ kids =>
+    (escapeChildren tag || !vHasTextKids kids || vTextareaOneText tag kids) && vRawTextFreeKids kids
   | .seq ks => vRawTextFreeKids ks
   | .vec ks => vRawTextFreeKids ks
   | .island _ _ ks => vRawTextFreeKids ks
